@@ -191,6 +191,11 @@ class KeyedList(Generic[ItemType, KeyType], MutableSequence, KeyedBase):  # pyli
         self._list.insert(index, item)
         self._dict[key] = item
 
+    def reverse(self):
+        # The inherited mixin swaps items through `__setitem__`, which
+        # (rightly) rejects a key that is still present at another index.
+        self._list.reverse()
+
     def __contains__(self, value):
         try:
             if value in self._dict:
